@@ -1164,7 +1164,7 @@ impl<'a> Attributes<'a> {
 //@rewrite use crate::name::ResolveResult::*; ==> 
 //@rewrite self.any(|attr| { ==> any_attr(self, |attr: core::result::Result<Attribute<'a>, AttrError>| {
 //@rewrite Bound(Namespace( ==> ResolveResult::Bound(Namespace(
- fn has_nil<R>(&mut self, reader: &NsReader<R>) -> (r: bool)
+ pub(crate) fn has_nil<R>(&mut self, reader: &NsReader<R>) -> (r: bool)
         // C03 / C07: looking for `xsi:nil` terminates and never panics, whatever the tag contains (errors of the iterator are skipped)
         requires old(self).inv(), reader.ns_resolver.wf(),
         ensures final(self).inv(), final(self).bytes == old(self).bytes,
